@@ -163,6 +163,9 @@ class Check:
     def __init__(self, prop, tier):
         self.prop, self.tier = prop, tier
         self.t0 = time.time()
+        import glob
+        for f in glob.glob(os.path.join(WORK, "replay", f"{prop}-*.json")):
+            os.remove(f)
         self.states = 0
         self.transitions = 0
         self.traces = 0
